@@ -9,7 +9,8 @@ import C10_gen
 LEAN_MODULES = ['C11', 'C10'] + C10_gen.LEAN_MODULES
 
 MANIFEST = dict(
-    text="Lean theorems over a line-by-line transition system of ShareWithConfig (regions R1/R2/R3/T, minimal publish/behavior/replay connectors) and of the "
+    text="Premise about the connectors (the subjects Share / ShareReplay / the connectable observable are built on): C10's lock-skeleton theorem and the subject step functions regenerated from subject_*.go on this run (RoProps/C10, C10gen) - a subject whose Subscribe or Next leaves its critical section breaks them. "
+         "Lean theorems over a line-by-line transition system of ShareWithConfig (regions R1/R2/R3/T, minimal publish/behavior/replay connectors) and of the "
          "connectable observable, for EVERY connector, flag combination, synchronous source prefix and event sequence over {sub, unsub i, src N/E/C[, connect, disconnect]} "
          "(induction through an invariant): live upstream subscriptions <= 1; refCount = open subscribers (+ leaked references, exact on the safe sub-domain); upstream "
          "subscribed iff no current generation, released at 1->0 iff ResetOnRefCountZero; after a source terminal fresh or replayed execution as the flags say (latched "
